@@ -586,6 +586,40 @@ def held_reference(ctx):
             ctx.event("held_reference_writes_kept")
 
 
+def assign_back(ctx):
+    """An array member edited in place is committed by assigning it to the member again (the very same list object,
+    or a fresh list equal to it): the assignment must rebuild the union although the value 'did not change'."""
+    for endian in "<>":
+        text = "union u { uint32 a; uint16 arr[2]; uint8 raw[4]; };"
+        for form in ("same-object", "equal-list"):
+            ctx.evaluation(("assign-back", endian, form))
+            ctx.cell("route:array-assigned-back")
+            try:
+                cs = lib.load(text, endian, False, False)
+                o = cs.u(bytes.fromhex("11223344"))
+                if form == "same-object":
+                    arr = o.arr
+                    arr[1] = 0xBEEF
+                    o.arr = arr
+                else:
+                    o.arr[1] = 0xBEEF
+                    o.arr = [int(o.arr[0]), 0xBEEF]
+                tail = bytes.fromhex("efbe" if endian == "<" else "beef")
+                want = bytes.fromhex("1122") + tail
+                got = (o.dumps(), [int(x) for x in o.raw], int(o.a))
+                exp = (want, list(want), int.from_bytes(want, "little" if endian == "<" else "big"))
+            except Exception as e:  # noqa: BLE001
+                ctx.violation("assign-back", f"assigning-an-edited-array-back-raises:{type(e).__name__}",
+                              {"text": text, "error": lib.exc_sig(e), "workload": "assign-back"})
+                continue
+            if got != exp:
+                ctx.violation("assign-back", "array-assigned-back-after-in-place-edit-does-not-reach-the-union",
+                              {"text": text, "endian": endian, "form": form, "got": repr(got), "want": repr(exp),
+                               "workload": "assign-back"})
+            else:
+                ctx.event("assign_back_checked")
+
+
 def run(ctx):
     mon = UnionMonitor(ctx)
     mon.install()
@@ -593,6 +627,7 @@ def run(ctx):
         if ctx.shard == 0:
             witnesses(ctx)
             held_reference(ctx)
+            assign_back(ctx)
         if ctx.shard % 4 == 1:
             offset_unions(ctx, 12 if not ctx.thorough else 150)
         for i in range(N_CASES[ctx.tier]):
@@ -610,6 +645,9 @@ def run(ctx):
 def replay(ctx, detail):
     if detail.get("workload") == "held-reference":
         held_reference(ctx)
+        return
+    if detail.get("workload") == "assign-back":
+        assign_back(ctx)
         return
     import random
 
